@@ -41,7 +41,7 @@ def R1_adjacency(ctx):
     caps = [unmut(x) for x in cl[0][2]]
     cb = F.need(cl[0][1])
     ctm = Terms(cb)
-    ins = [c for c in cb.calls() if c.callee == MAP + "insert"]
+    ins = [c for c in cb.calls_deep() if c.callee == MAP + "insert"]
     ctx.check(len(ins) == 2, "two-inserts", "the row callback performs %d adjacency inserts, expected exactly 2" % len(ins), cb.where(), detail="2")
     roles = {}
     for c in ins:
@@ -73,14 +73,17 @@ def R1_adjacency(ctx):
             continue
         c = got[3]
         conds = []
-        for sbb, dt, names, t in switches(cb, ctm):
-            if sbb in cb.dom.get(c.bb, ()) and sbb != c.bb:
-                d = nosite(deep_strip(dt))
-                if not (d[0] == "discr" and calls_in(d, "get_mut")):
-                    # is the insert reachable on both outcomes?  then it is not conditional on it
-                    succs = set(cb.succ[sbb])
-                    if not all(c.bb in cb.reachable(start=s) for s in succs):
-                        conds.append(short(d)[:80])
+        # a site inside a new helper: the conditions around the helper call in the callback and those around the insert in the helper
+        places = [(cb, ctm, c.bb)] if not isinstance(c, VirtualCallSite) else [(cb, ctm, c.bb), (c.inner.body, Terms(c.inner.body), c.inner.bb)]
+        for pb_, ptm_, at in places:
+            for sbb, dt, names, t in switches(pb_, ptm_):
+                if sbb in pb_.dom.get(at, ()) and sbb != at:
+                    d = nosite(deep_strip(dt))
+                    if not (d[0] == "discr" and calls_in(d, "get_mut")):
+                        # is the insert reachable on both outcomes?  then it is not conditional on it
+                        succs = set(pb_.succ[sbb])
+                        if not all(at in pb_.reachable(start=s_) for s_ in succs):
+                            conds.append(short(d)[:80])
         ctx.check(not conds, "unconditional:%s" % which, "the %s insert is conditional on %s" % (which, conds), c.where())
     # Graph fields
     gb = F.need(N + "graph_loader::graph_from_files")
@@ -102,6 +105,15 @@ def R2_ids_are_rows(ctx):
         rows = [r for r in table(b) if r.end == "return"]
         look = ("call", "std::slice::<impl [T]>::get", (("field", ("arg", 1), fld), ("field", ("arg", 2), "0")))
         ok = any(r.sel.get(look) == "Some" and r.ret == ("agg", "std::result::Result", "Ok", (("0", look),)) for r in rows) and any(r.sel.get(look) == "None" and result_variant(r.ret) == "Err" for r in rows)
+        if not ok:
+            # the same written with the adaptor: slice.get(id.0).ok_or(err) / ok_or_else(|| err)
+            rt = nosite(Terms(b).return_term())
+            ok = rt[0] == "call" and re.search(r"Option::<T>::ok_or(_else)?$", rt[1]) is not None and len(rt[2]) == 2 and nosite(deep_strip(rt[2][0])) == look
+            if ok:
+                e = rt[2][1]
+                if e[0] == "closure" and e[1] in F.bodies:
+                    e = nosite(Terms(F.bodies[e[1]]).return_term())
+                ok = e[0] == "agg" and e[1].endswith("NetworkError") and e[2] == err
         ctx.check(ok, "Graph::%s" % fn, "%s is not %s[id.0] with Err for a miss" % (fn, fld), b.where(), detail="%s[id.0]" % fld)
     for fn, fld in (("n_edges", "edges"), ("n_vertices", "vertices")):
         b = F.need(G + fn)
@@ -151,22 +163,41 @@ def roles_rule(ctx, rid):
             okb = any("edge_list" in k for k in key(a[0])) and any("vertex_list" in k for k in key(a[1])) and any("n_edges" in k for k in key(a[2])) and any("n_vertices" in k for k in key(a[3]))
         ctx.check(okb, "graph_builder:roles", "the graph builder does not pass (edge list file, vertex list file, n_edges, n_vertices) in that order", gb.where(), detail="config keys in role order")
     g = F.need(N + "graph_loader::graph_from_files")
-    gtm = Terms(g)
-    ne = ("call", N + "graph_loader::get_n_edges", (("arg", 1),))
-    nvx = ("call", N + "graph_loader::get_n_vertices", (("arg", 2),))
-    confs = [x for x in subterms(nosite(deep_strip(gtm.return_term()))) if x[0] == "agg" and x[1].endswith("EdgeLoaderConfig")]
-    allc = set()
-    for bb, blk in enumerate(g.blocks):
-        for pos, s in enumerate(blk["stmts"]):
-            if s["k"] == "assign" and s["rv"]["k"] == "agg" and s["rv"].get("adt", "").endswith("LoaderConfig"):
-                allc.add(nosite(deep_strip(gtm.rvalue(s["rv"], bb, pos))))
     oke = okv = False
-    for c in allc:
-        f = dict(c[3])
-        if c[1].endswith("EdgeLoaderConfig"):
-            oke = f["n_edges"] == mk_phi([("arg", 3), ne]) and f["n_vertices"] == mk_phi([("arg", 4), nvx]) and contains(f["edge_list_csv"], lambda s: s == ("arg", 1))
-        if c[1].endswith("VertexLoaderConfig"):
-            okv = f["n_vertices"] == mk_phi([("arg", 4), nvx]) and contains(f["vertex_list_csv"], lambda s: s == ("arg", 2))
+    ctx.counters = set()
+    with no_inline():
+        gtm = Terms(g)
+        allc = set()
+        for bb, blk in enumerate(g.blocks):
+            for pos, s in enumerate(blk["stmts"]):
+                if s["k"] == "assign" and s["rv"]["k"] == "agg" and s["rv"].get("adt", "").endswith("LoaderConfig"):
+                    allc.add(nosite(deep_strip(gtm.rvalue(s["rv"], bb, pos))))
+
+        def counted(t, given, file_arg, other_arg):
+            """t = given | counter(file): returns (counter function, position of the file argument) or None"""
+            if t[0] != "phi" or len(t[1]) != 2 or given not in t[1]:
+                return None
+            c = [x for x in t[1] if x != given][0]
+            if c[0] != "call" or c[1] not in F.bodies or not c[1].startswith(N):
+                return None
+            pos = [i for i, a in enumerate(c[2]) if contains(a, lambda q: q == file_arg)]
+            if len(pos) != 1 or any(contains(a, lambda q: q == other_arg or q in (("arg", 3), ("arg", 4))) for a in c[2]):
+                return None
+            return (c[1], pos[0] + 1)
+
+        for c in allc:
+            f = dict(c[3])
+            if c[1].endswith("EdgeLoaderConfig"):
+                ce = counted(f["n_edges"], ("arg", 3), ("arg", 1), ("arg", 2))
+                cv = counted(f["n_vertices"], ("arg", 4), ("arg", 2), ("arg", 1))
+                oke = ce is not None and cv is not None and contains(f["edge_list_csv"], lambda q: q == ("arg", 1)) and not contains(f["edge_list_csv"], lambda q: q == ("arg", 2))
+                if oke:
+                    ctx.counters |= {ce, cv}
+            if c[1].endswith("VertexLoaderConfig"):
+                cv = counted(f["n_vertices"], ("arg", 4), ("arg", 2), ("arg", 1))
+                okv = cv is not None and contains(f["vertex_list_csv"], lambda q: q == ("arg", 2)) and not contains(f["vertex_list_csv"], lambda q: q == ("arg", 1))
+                if okv:
+                    ctx.counters.add(cv)
     ctx.check(oke, "loader:edge-config-roles", "EdgeLoaderConfig is not {edge file, n_edges (given or counted from the edge file), n_vertices (given or counted from the vertex file)}", g.where(), detail="n_edges<-arg3|count(edge file), n_vertices<-arg4|count(vertex file)")
     ctx.check(okv, "loader:vertex-config-roles", "VertexLoaderConfig is not {vertex file, n_vertices}", g.where())
 
@@ -176,12 +207,18 @@ def R3_counts_and_readers(ctx):
     F = ctx.F
     roles_rule(ctx, "C15.R3a")
     ctx.rule("C15.R3", "get_n_* = line_count - 1 under n >= 1, gzip flag from the .gz extension; line_count counts lines() in both branches; read_raw_file/read_gzip/read_regular do the same per-row work without skipping rows", floor=10)
-    for fn in ("get_n_edges", "get_n_vertices"):
-        b = F.need(N + "graph_loader::" + fn)
+    # the counting functions are those graph_from_files was found to use (C15.R3a), whatever they are called
+    counters = sorted(getattr(ctx, "counters", ()))
+    if not counters:
+        raise AnchorMissing("no row-counting function found in graph_from_files")
+    for key, fpos in counters:
+        b = F.need(key)
+        fn = key.split("::")[-1]
         rows = [r for r in table(b, max_paths=100000) if r.end == "return"]
         lc = None
         okn = True
         n_ok = 0
+        gzs = []
         for r in rows:
             if result_variant(r.ret) != "Ok":
                 continue
@@ -194,18 +231,26 @@ def R3_counts_and_readers(ctx):
             lc = lcs[0]
             A = Arith(F, {lc: "n"})
             okn = okn and A.ev(v).equals(Ratio(Poly.sym("n")) - Ratio(Poly.const(1)))
-            guard = ("Le", ("const", "usize", 1), lc) in r.facts or ("Lt", ("const", "usize", 0), lc) in r.facts
+            # the guard may name the count by its path-insensitive term (the flag as a phi of this path's flag and others)
+            same = lambda x: x == lc or (x[0] == "call" and x[1] == lc[1] and x[2][0] == lc[2][0] and (x[2][1] == lc[2][1] or (x[2][1][0] == "phi" and lc[2][1] in x[2][1][1])))
+            fx = set((f[0], lc if same(f[1]) else f[1], lc if same(f[2]) else f[2]) for f in r.facts if len(f) == 3)
+            guard = ("Le", ("const", "usize", 1), lc) in fx or ("Lt", ("const", "usize", 0), lc) in fx or implies(fx, ("Le", ("const", "usize", 1), lc))
             okn = okn and guard
+            gzs.append(lc[2][1])
         ctx.check(okn and n_ok >= 1, fn + ":count-minus-header", "%s is not line_count(file) - 1 under the guard n >= 1" % fn, b.where(), detail="n - 1 if n >= 1")
         if lc is not None:
-            gz = lc[2][1]
-            lits = [s[2] for s in subterms(gz) if s[0] == "const" and isinstance(s[2], str)]
-            cl = [s for s in subterms(gz) if s[0] == "closure"]
-            for k in cl:
-                kb = F.bodies.get(k[1])
-                if kb is not None:
-                    lits += [s[2] for s in subterms(Terms(kb).return_term()) if s[0] == "const" and isinstance(s[2], str)]
-            ctx.check(lc[2][0] == ("arg", 1) and "gz" in lits, fn + ":gzip-by-extension", "the gzip flag is not derived from the file's .gz extension", b.where(), detail=".gz")
+            lits = []
+            for gz in gzs:
+                lits += [s[2] for s in subterms(gz) if s[0] == "const" and isinstance(s[2], str)]
+                for k in [s for s in subterms(gz) if s[0] == "closure"]:
+                    kb = F.bodies.get(k[1])
+                    if kb is not None:
+                        lits += [s[2] for s in subterms(Terms(kb).return_term()) if s[0] == "const" and isinstance(s[2], str)]
+            fa = ("arg", fpos)
+            transparent = lambda t: t == fa or (t[0] == "call" and len(t[2]) == 1 and re.search(r"(AsRef<.*>>::as_ref|Deref>::deref|::as_path|Borrow<.*>>::borrow)$", t[1]) and transparent(t[2][0]))
+            # per path the flag is either computed from the file's extension or the constant false (no extension)
+            flags_ok = any(contains(gz, lambda q: q == fa) for gz in gzs) and all(contains(gz, lambda q: q == fa) or gz == ("const", "bool", False) for gz in gzs)
+            ctx.check(transparent(nosite(lc[2][0])) and "gz" in lits and flags_ok, fn + ":gzip-by-extension", "the gzip flag is not derived from the counted file's .gz extension (file argument %s, flag %s)" % (short(lc[2][0])[:80], short(gz)[:120]), b.where(), detail=".gz")
     lcb = F.need(FS + "fs_utils::line_count")
     rows = [r for r in table(lcb, max_paths=100000) if r.end == "return" and result_variant(r.ret) == "Ok"]
     seen = {}
